@@ -785,6 +785,7 @@ var c12edgeSources = []string{
 	"pub const A : base.u8 = 1 // one\npub const BB : base.u8 = 123456 // two\n\npub const CCC : base.u64 = 0B1_0000_0001\n",
 	"pub struct foo?(\n// c0\na : base.u8, // c1\n\n\nbcd : base.u32,\n// c2\n)\n// c3\n",
 	"pub func foo.bar!(a: base.u8) base.u8 {\nvar x : base.u8 // c\n// d\nvar yy : base.u8\nx = args.a +\n// mid\n1\nif x > 0 { return x; } // t\nreturn 0 }\n",
+	"pub const LEADZ : base.u32 = 0_1\npub const LEADZZ : base.u32 = 0_0_0017\npub const Z : base.u32 = 0_0\npub const H : base.u32 = 0x0_1\n",
 	"pri func foo.f() {\n    while.outer true {{\n        while true {\n            break.outer\n        }\n    }}.outer\n}\n",
 	"pub func foo.g!() {\n    this.x = (- 1) as base.u8\n    this.y = not (this.a and this.b)\n    this.z = this.t[.. 3][1 ..= 2]\n}\n",
 }
